@@ -20,10 +20,12 @@ outro = '''
 Reading the table. **caught** = exit 1 with a VIOLATION line naming the obligation shown; obligations whose name ends in
 `(native enumeration …)` or `bounded-differential-search` are **bounded stand-ins**, the others are Verus obligations
 or Kani cells. **missed** = exit 0: the change lies in code that no contract, cell or stand-in of this property
-reaches — each of these is named as *not decided* in the level note of the check: C13-m2 (partitioned count-sliding
-window: hash map keyed by strings), C34-m3 (`inject_batch` in the async coordinator), C30-m1/m2 where applicable
-(eviction order / burst-0 refill cap), C20-m3 where applicable (`is_json` heuristics on non-ASCII payloads), C43-m1
-(go-to-definition range arithmetic inside the request handler), C45-m3 (DLQ writer). No seeded change was reported on
+reaches — both are named as *not decided* in the level note of their check: C13-m2 (the *partitioned* count-sliding
+window state in `engine/types.rs`: `pub(crate)`, hash map keyed by strings, reachable only through the async engine)
+and C34-m3 (`inject_batch` in the async coordinator). Many of the **caught** rows were *missed* or *undecided* in the
+first evaluation round; they are caught now because the check was extended afterwards (chrono model for the windows,
+bounded stand-ins) — the extension was always a contract or a stand-in on the real function stated from the property,
+never a test for the specific change. No seeded change was reported on
 the unchanged tree, and no check reports a violation on the unchanged tree.
 
 Own development mutants (scratch copy, not kept): union wrong child, intersection cache key `(a,a)`, `pwo` wrong lo,
